@@ -11,7 +11,7 @@ import PyrollModel.Impl
           formula, `surface_y` = a translated formula of one contour ordinate and one grid abscissa), linear
           interpolation on a polyline (`scipy.interpolate.interp1d`, kind linear, extrapolating) and the tensor-product
           (bi)linear interpolation on a rectilinear grid (`scipy.interpolate.interpn`, method linear).
-  Part 3  spline groove: boundary stripping, centring by a translated list term, half width / width / usable width / depth
+  Part 3  spline groove: boundary stripping (the kind the translator found), centring by a translated list term, half width / width / usable width / depth
           as translated list terms, depth function = `interp1` of the centred polyline; `Refines` = insertion of collinear
           vertices.
 
@@ -196,11 +196,34 @@ def rollL : List α → List α
   | [] => []
   | a :: as => as ++ [a]
 
-/-- boundary stripping: a vertex is dropped when both cyclic neighbours have an ordinate close to 0 -/
-def strip (pts : List (α × α)) : List (α × α) :=
+/-- which boundary stripping the source performs (read by the translator) -/
+inductive StripKind where
+  /-- mask `~(isclose(roll(y, 1), 0) & isclose(roll(y, -1), 0))`: every vertex whose two cyclic neighbours lie on the face line -/
+  | bothNeighbours
+  /-- slice `[first non-zero − 1 : last non-zero + 2]`: the horizontal runs at both ends only -/
+  | faceRuns
+  deriving Repr, DecidableEq, Inhabited
+
+/-- a vertex is dropped when both cyclic neighbours have an ordinate close to 0 -/
+def stripBoth (pts : List (α × α)) : List (α × α) :=
   let ys := col 1 pts
   ((pts.zip ((rollR ys).zip (rollL ys))).filter fun t =>
       !(isclose t.2.1 (PyNum.nat 0) && isclose t.2.2 (PyNum.nat 0))).map (·.1)
+
+/-- leading vertices are dropped as long as the NEXT vertex still lies on the face line -/
+def dropFaceRun : List (α × α) → List (α × α)
+  | p :: q :: rest => if isclose q.2 (PyNum.nat 0) then dropFaceRun (q :: rest) else p :: q :: rest
+  | l => l
+
+/-- `pts[inner[0] - 1 : inner[-1] + 2]` with `inner` the indices of the ordinates not close to 0 (all of `pts` if none) -/
+def stripFaceRuns (pts : List (α × α)) : List (α × α) :=
+  if (col 1 pts).all (fun y => isclose y (PyNum.nat 0)) then pts
+  else (dropFaceRun (dropFaceRun pts).reverse).reverse
+
+def strip (k : StripKind) (pts : List (α × α)) : List (α × α) :=
+  match k with
+  | .bothNeighbours => stripBoth pts
+  | .faceRuns => stripFaceRuns pts
 
 def shiftX (c : α) (pts : List (α × α)) : List (α × α) := pts.map fun p => (p.1 - c, p.2)
 
@@ -208,7 +231,7 @@ def shiftX (c : α) (pts : List (α × α)) : List (α × α) := pts.map fun p =
 def centred (centre : LTerm) (pts : List (α × α)) : List (α × α) := shiftX (centre.eval pts) pts
 
 /-- the vertex array a `SplineGroove` ends up with -/
-def splinePoints (centre : LTerm) (pts : List (α × α)) : List (α × α) := centred centre (strip pts)
+def splinePoints (k : StripKind) (centre : LTerm) (pts : List (α × α)) : List (α × α) := centred centre (strip k pts)
 
 /-- are the end ordinates accepted (`np.isclose(y[0], 0)` and `np.isclose(y[-1], 0)`) -/
 def splineAccepts (pts : List (α × α)) : Bool :=
